@@ -127,11 +127,24 @@ func warnWrap(warn string) string {
 	return warnStartDelim + warn + warnEndDelim
 }
 
+// includeDepthKey is the entry of the include counters that holds the nesting depth of
+// include over all template names.
+const includeDepthKey = "\x00include"
+
 // 'include' needs to be defined in the scope of a 'tpl' template as
 // well as regular file-loaded templates.
 func includeFun(t *template.Template, includedNames map[string]int) func(string, interface{}) (string, error) {
 	return func(name string, data interface{}) (string, error) {
 		var buf strings.Builder
+		// The counter per template name only stops a template that includes itself. Templates
+		// that include each other in a cycle get as deep as recursionMaxNums times their
+		// number, which exhausts the stack (not recoverable) with a few hundred of them. So
+		// the nesting depth of include is also counted over all names, as it is for tpl.
+		if includedNames[includeDepthKey] > recursionMaxNums {
+			return "", errors.Wrapf(fmt.Errorf("unable to execute template"), "rendering template has a nested reference name: %s", name)
+		}
+		includedNames[includeDepthKey]++
+		defer func() { includedNames[includeDepthKey]-- }()
 		if v, ok := includedNames[name]; ok {
 			if v > recursionMaxNums {
 				return "", errors.Wrapf(fmt.Errorf("unable to execute template"), "rendering template has a nested reference name: %s", name)
